@@ -41,6 +41,8 @@ func (c *IDCounter) NextID() packet.ID {
 	// increment id
 	c.next++
 
+	verifHook(c, "nextid", uint16(id), nil)
+
 	return id
 }
 
@@ -51,4 +53,6 @@ func (c *IDCounter) Reset() {
 
 	// reset counter
 	c.next = 1
+
+	verifHook(c, "creset", 0, nil)
 }
